@@ -392,83 +392,96 @@ func c03Encode(c *Ctx) {
 	mask, w, g := c.globalInit("pkg/bip39", "wordIndexMask")
 	r.Check(mask != nil && mask.String() == "call<math/big.NewInt>(2047)" && w == 1, "C03.bit-layout.mask", c.P.Pos(g.Pos()), "word index mask = 2^11-1 with a single writer: %s", mask)
 
-	// the per-word store
+	// the per-word store — in EntropyToMnemonic itself or in a helper it hands the number and the word count to
 	nStore := 0
-	for _, blk := range fn.Blocks {
-		for _, ins := range blk.Instrs {
-			st, ok := ins.(*ssa.Store)
-			if !ok {
-				continue
-			}
-			at := b.Of(st.Addr, st)
-			bd, ok := ana.Match("iaddr($words, $i)", at)
-			if !ok {
-				continue
-			}
-			if _, isMs := ana.Match("makeslice<repo/pkg/bip39.Mnemonic>($n, $n)", stripObj(bd["$words"])); !isMs {
-				continue
-			}
-			nStore++
-			words := stripObj(bd["$words"])
-			// index runs from len(words)-1 down
-			_, okI := ana.Match("ind<-1>(bin<->(len(_), 1))", bd["$i"])
-			r.Check(okI, "C03.bit-layout.encode-direction", c.ipos(st), "words are filled from the last index downwards: %s", short(bd["$i"].String(), 120))
-			ge := edgesMatching(b, "bin<>=>(ind<-1>(bin<->(len(_), 1)), 0)")
-			r.Check(len(ge) == 1, "C03.bit-layout.encode-all-words", c.ipos(st), "loop continues while i >= 0 (index 0 included)")
-			// word count
-			nb, okN := ana.Match("makeslice<*>(call<*>(bin<*>(len(p0), 8)), _)", words)
-			_ = nb
-			if okN {
-				h := calleeOf(words.Arg(0))
-				good := h != nil && len(h.Blocks) == 1
-				if good {
-					hv := &ana.VSA{B: ana.NewBuilder(c.P, h), Tracked: []string{"p0"}}
-					ret := h.Blocks[0].Instrs[len(h.Blocks[0].Instrs)-1].(*ssa.Return)
-					for _, bytes := range stepSet(16, 64, 4) {
-						got, ok := hv.Eval(ret.Results[0], []int64{bytes * 8})
-						if !ok || got != (bytes*8+bytes*8/32)/11 || (bytes*8+bytes*8/32)%11 != 0 {
-							good = false
+	scan := func(fn *ssa.Function, b *ana.Builder) {
+		for _, blk := range fn.Blocks {
+			for _, ins := range blk.Instrs {
+				st, ok := ins.(*ssa.Store)
+				if !ok {
+					continue
+				}
+				at := b.Of(st.Addr, st)
+				bd, ok := ana.Match("iaddr($words, $i)", at)
+				if !ok {
+					continue
+				}
+				if _, isMs := ana.Match("makeslice<repo/pkg/bip39.Mnemonic>($n, $n)", stripObj(bd["$words"])); !isMs {
+					continue
+				}
+				nStore++
+				words := stripObj(bd["$words"])
+				// index runs from len(words)-1 down
+				_, okI := ana.Match("ind<-1>(bin<->(len(_), 1))", bd["$i"])
+				r.Check(okI, "C03.bit-layout.encode-direction", c.ipos(st), "words are filled from the last index downwards: %s", short(bd["$i"].String(), 120))
+				ge := edgesMatching(b, "bin<>=>(ind<-1>(bin<->(len(_), 1)), 0)")
+				r.Check(len(ge) == 1, "C03.bit-layout.encode-all-words", c.ipos(st), "loop continues while i >= 0 (index 0 included)")
+				// word count
+				nb, okN := ana.Match("makeslice<*>(call<*>(bin<*>(len(p0), 8)), _)", words)
+				_ = nb
+				if okN {
+					h := calleeOf(words.Arg(0))
+					good := h != nil && len(h.Blocks) == 1
+					if good {
+						hv := &ana.VSA{B: ana.NewBuilder(c.P, h), Tracked: []string{"p0"}}
+						ret := h.Blocks[0].Instrs[len(h.Blocks[0].Instrs)-1].(*ssa.Return)
+						for _, bytes := range stepSet(16, 64, 4) {
+							got, ok := hv.Eval(ret.Results[0], []int64{bytes * 8})
+							if !ok || got != (bytes*8+bytes*8/32)/11 || (bytes*8+bytes*8/32)%11 != 0 {
+								good = false
+							}
 						}
 					}
+					r.Check(good, "C03.bit-layout.bits-to-word-count", c.ipos(st), "word count = (ENT + ENT/32)/11 for every accepted size")
+				} else {
+					r.Viol("C03.bit-layout.bits-to-word-count", c.ipos(st), "word slice is not make(Mnemonic, f(len(entropy)*8)): %s", short(words.String(), 200))
 				}
-				r.Check(good, "C03.bit-layout.bits-to-word-count", c.ipos(st), "word count = (ENT + ENT/32)/11 for every accepted size")
-			} else {
-				r.Viol("C03.bit-layout.bits-to-word-count", c.ipos(st), "word slice is not make(Mnemonic, f(len(entropy)*8)): %s", short(words.String(), 200))
-			}
-			vt := b.Of(st.Val, st)
-			pat := "call<(repo/pkg/bip39/wordlist.List).Word>(load(global<repo/pkg/bip39.wordList>), conv<int>(call<(*math/big.Int).Int64|(*math/big.Int).Uint64>(obj(call<math/big.NewInt>(0), call<(*math/big.Int).And>(self, $E, load(global<repo/pkg/bip39.wordIndexMask>)), ...))))"
-			vb, okV := ana.Match(pat, vt)
-			if !okV {
-				r.Viol("C03.bit-layout.encode-word", c.ipos(st), "stored word is not wordList.Word(int(bigEntropy & mask)): %s", short(vt.String(), 300))
-				continue
-			}
-			r.OK("C03.bit-layout.encode-word", c.ipos(st), "word[i] = wordList.Word(bigEntropy & (2^11-1))")
-			eb, okE := ana.Match("obj(alloc<math/big.Int>, call<(*math/big.Int).SetBytes>(self, p0), call<(*math/big.Int).Lsh>(self, self, conv<uint>($cs)), call<(*math/big.Int).Or>(self, self, call<*>(p0, $cs)), maybe(call<(*math/big.Int).Rsh>(self, self, 11)))", vb["$E"])
-			r.Check(okE, "C03.bit-layout.encode-assembly", c.ipos(st), "bigEntropy = SetBytes(entropy) << CS | checksum(entropy, CS), shifted right by 11 per word: %s", short(vb["$E"].String(), 400))
-			if okE {
-				_, okC := ana.Match("bin</>(bin<*>(len(p0), 8), 32)", eb["$cs"])
-				r.Check(okC, "C03.bit-layout.checksum-bits-encode", c.ipos(st), "CS = len(entropy)*8/32: %s", eb["$cs"])
-				// the Rsh comes after the And within an iteration
-				var andI, rshI ssa.Instruction
-				for _, ci := range ana.Calls(fn) {
-					switch ana.CalleeName(ci.Common()) {
-					case "(*math/big.Int).And":
-						andI = ci
-					case "(*math/big.Int).Rsh":
-						rshI = ci
+				vt := b.Of(st.Val, st)
+				pat := "call<(repo/pkg/bip39/wordlist.List).Word>(load(global<repo/pkg/bip39.wordList>), conv<int>(call<(*math/big.Int).Int64|(*math/big.Int).Uint64>(obj(call<math/big.NewInt>(0), call<(*math/big.Int).And>(self, $E, load(global<repo/pkg/bip39.wordIndexMask>)), ...))))"
+				vb, okV := ana.Match(pat, vt)
+				if !okV {
+					r.Viol("C03.bit-layout.encode-word", c.ipos(st), "stored word is not wordList.Word(int(bigEntropy & mask)): %s", short(vt.String(), 300))
+					continue
+				}
+				r.OK("C03.bit-layout.encode-word", c.ipos(st), "word[i] = wordList.Word(bigEntropy & (2^11-1))")
+				eb, okE := ana.Match("obj(alloc<math/big.Int>, call<(*math/big.Int).SetBytes>(self, p0), call<(*math/big.Int).Lsh>(self, self, conv<uint>($cs)), call<(*math/big.Int).Or>(self, self, call<*>(p0, $cs)), maybe(call<(*math/big.Int).Rsh>(self, self, 11)))", vb["$E"])
+				r.Check(okE, "C03.bit-layout.encode-assembly", c.ipos(st), "bigEntropy = SetBytes(entropy) << CS | checksum(entropy, CS), shifted right by 11 per word: %s", short(vb["$E"].String(), 400))
+				if okE {
+					_, okC := ana.Match("bin</>(bin<*>(len(p0), 8), 32)", eb["$cs"])
+					r.Check(okC, "C03.bit-layout.checksum-bits-encode", c.ipos(st), "CS = len(entropy)*8/32: %s", eb["$cs"])
+					// the Rsh comes after the And within an iteration
+					var andI, rshI ssa.Instruction
+					for _, ci := range ana.Calls(fn) {
+						switch ana.CalleeName(ci.Common()) {
+						case "(*math/big.Int).And":
+							andI = ci
+						case "(*math/big.Int).Rsh":
+							rshI = ci
+						}
+					}
+					r.Check(andI != nil && rshI != nil && ana.InstrDominates(andI, st) && ana.InstrDominates(st, rshI), "C03.bit-layout.encode-order", c.ipos(st), "within an iteration: mask, store word, then shift right")
+					// same checksum helper as the decoder
+					d := c.P.Func("pkg/bip39", "MnemonicToEntropy")
+					if d != nil {
+						var dh *ssa.Function
+						db := ana.NewBuilder(c.P, d)
+						for _, ce := range edgesMatching(db, "bin<==>(call<(*math/big.Int).Cmp>($x, call<*>($e, $n)), 0)") {
+							dh = calleeOf(ce.Lit.Arg(0).Arg(1))
+						}
+						or, _ := ana.Find("call<(*math/big.Int).Or>(self, self, call<*>(p0, _))", vb["$E"])
+						r.Check(dh != nil && or != nil && calleeOf(or.Arg(2)) == dh, "C03.checksum-gate.sibling-helper", c.ipos(st), "encoder and decoder use the same checksum routine")
 					}
 				}
-				r.Check(andI != nil && rshI != nil && ana.InstrDominates(andI, st) && ana.InstrDominates(st, rshI), "C03.bit-layout.encode-order", c.ipos(st), "within an iteration: mask, store word, then shift right")
-				// same checksum helper as the decoder
-				d := c.P.Func("pkg/bip39", "MnemonicToEntropy")
-				if d != nil {
-					var dh *ssa.Function
-					db := ana.NewBuilder(c.P, d)
-					for _, ce := range edgesMatching(db, "bin<==>(call<(*math/big.Int).Cmp>($x, call<*>($e, $n)), 0)") {
-						dh = calleeOf(ce.Lit.Arg(0).Arg(1))
-					}
-					or, _ := ana.Find("call<(*math/big.Int).Or>(self, self, call<*>(p0, _))", vb["$E"])
-					r.Check(dh != nil && or != nil && calleeOf(or.Arg(2)) == dh, "C03.checksum-gate.sibling-helper", c.ipos(st), "encoder and decoder use the same checksum routine")
+			}
+		}
+	}
+	scan(fn, b)
+	if nStore == 0 {
+		for _, ci := range ana.Calls(fn) {
+			if h := ana.StaticRepoCallee(ci.Common()); h != nil && h != fn {
+				if call := stripObj(b.CallTermAt(ci)); call.Op == "call" && len(call.Args) == len(h.Params) {
+					r.Fn(ana.ShortFunc(h))
+					scan(h, boundBuilderP(c.P, call))
 				}
 			}
 		}
